@@ -155,42 +155,33 @@ func vfDigits(name string, max int) string {
 	return s
 }
 
-// VfRangeStructured: "bytes=" A "-" B with digit strings (numeric semantics, clipping, overflow).
-func VfRangeStructured() {
-	n := 4
-	zzvf.Bound("digits_max", n)
-	size := zzvf.Int64("size")
-	zzvf.Assume(size >= 0)
-	a := vfDigits("first", n)
-	b := vfDigits("last", n)
-	vfCheckRange(size, "bytes="+a+"-"+b)
+// Concrete prefixes put a few symbolic digits next to the interesting magnitudes (small, just below 2^63,
+// just below 2^64, leading zeros) without creating 19 chained symbolic multiplications.
+var vfPrefixes = []string{"", "922337203685477", "0000", "1844674407370955", "99999999999999999"}
+
+func vfNumber(name string, nd, nprefix int) string {
+	p := vfPrefixes[zzvf.Choice(name+"$prefix", nprefix)]
+	return p + vfDigits(name, nd)
 }
 
-// VfRangeLong: numbers of 18..20 digits (around the int64 limit).
-func VfRangeLong() {
-	zzvf.Bound("digits_min", 18)
-	zzvf.Bound("digits_max", 20)
+// VfRangeStructured: "bytes=" A "-" B with digit strings (numeric semantics, clipping, overflow).
+func VfRangeStructured() {
+	nd, np := 4, 2
+	if zzvf.Tier() == 1 {
+		nd, np = 4, 5
+	}
+	zzvf.Bound("symbolic_digits_max", nd)
+	zzvf.Bound("concrete_prefixes", np)
 	size := zzvf.Int64("size")
 	zzvf.Assume(size >= 0)
-	la := 18 + zzvf.Choice("first$n", 3)
-	a := zzvf.StringN("first", la)
-	for i := 0; i < len(a); i++ {
-		zzvf.Assume(zzvf.And(a[i] >= '0', a[i] <= '9'))
-	}
-	var b string
-	if zzvf.Choice("last$present", 2) == 1 {
-		lb := 18 + zzvf.Choice("last$n", 3)
-		b = zzvf.StringN("last", lb)
-		for i := 0; i < len(b); i++ {
-			zzvf.Assume(zzvf.And(b[i] >= '0', b[i] <= '9'))
-		}
-	}
+	a := vfNumber("first", nd, np)
+	b := vfNumber("last", nd, np)
 	vfCheckRange(size, "bytes="+a+"-"+b)
 }
 
 // VfRangeFree: arbitrary bytes (structure: units, separators, signs, garbage).
 func VfRangeFree() {
-	n := 5
+	n := 5 + zzvf.Tier()
 	zzvf.Bound("free_len_max", n)
 	size := zzvf.Int64("size")
 	zzvf.Assume(size >= 0)
@@ -200,7 +191,7 @@ func VfRangeFree() {
 
 // VfRangeFreeSpec: "bytes=" followed by arbitrary bytes.
 func VfRangeFreeSpec() {
-	n := 5
+	n := 5 + zzvf.Tier()
 	zzvf.Bound("spec_len_max", n)
 	size := zzvf.Int64("size")
 	zzvf.Assume(size >= 0)
